@@ -56,6 +56,8 @@ impl Entry {
 pub const F_NO_SCHEMA: u8 = 1;
 pub const F_ANGLE: u8 = 2;
 pub const F_STRICT_BOOL: u8 = 4;
+/// the generator put a line break into text that a message reflects: layout not parseable
+pub const F_MULTILINE: u8 = 8;
 
 #[derive(Clone, Debug)]
 pub struct Case {
@@ -236,12 +238,12 @@ pub struct Strict {
     pub l: Vec<i32>,
 }
 
-pub const TARGETS: &[&str] = &["MapI32", "Strict", "En", "VecString", "TupU8Str", "String", "Val", "VecI32", "StrRef"];
+pub const TARGETS: &[&str] = &["MapI32", "Strict", "En", "VecString", "TupU8Str", "String", "Val", "VecI32", "StrRef", "GCfg", "VCfg"];
 
-struct Chunked<'a> {
-    data: &'a [u8],
-    pos: usize,
-    chunk: usize,
+pub struct Chunked<'a> {
+    pub data: &'a [u8],
+    pub pos: usize,
+    pub chunk: usize,
 }
 impl std::io::Read for Chunked<'_> {
     fn read(&mut self, buf: &mut [u8]) -> std::io::Result<usize> {
@@ -291,6 +293,8 @@ pub fn execute(c: &Case) -> Result<(), Error> {
         "String" => go::<String>(c),
         "Val" => go::<Val>(c),
         "VecI32" => go::<Vec<i32>>(c),
+        "GCfg" => crate::valid::execute_garde(c),
+        "VCfg" => crate::valid::execute_validator(c),
         "StrRef" => {
             // borrowed target: only the string entry points can serve it
             let s = std::str::from_utf8(&c.input).unwrap_or("");
